@@ -289,4 +289,27 @@ theorem bridge_chacha_mix (ctx : ChaCha) (input : Array UInt32) (hin : input.siz
         intro e; apply hc; apply UInt32.toBitVec_inj.mp; simpa using e
       simp [toG, hc, hc']
 
+
+/-- the same, phrased with the model's context: for a context `c` with twelve key words,
+`chacha_mix` on the sixteen words `inputWords c.key c.n0 c.n1 lo hi` produces the output block and
+the counter of the model's `mix c.bf c.s` -/
+theorem bridge_chacha_mix_ctx (g : ChaCha) (c : Ctx) (hk : c.key.length = 12)
+    (hst : g.state = toG (inputWords c.key c.n0 c.n1 c.s.lo c.s.hi)) (hout : g.u_output32.size = 16)
+    (fuel : Nat) (hf : 10 ≤ fuel) :
+    ∃ r, chacha_mix fuel g = some r ∧ r.pos = 0#32 ∧
+      r.u_output32.toList.flatMap (fun w => bytesLE32 (UInt32.ofBitVec w)) = (mix c.bf c.s).out ∧
+      r.state = toG (inputWords c.key c.n0 c.n1 (mix c.bf c.s).lo (mix c.bf c.s).hi) := by
+  obtain ⟨k0, k1, k2, k3, k4, k5, k6, k7, k8, k9, k10, k11, hkey⟩ :
+      ∃ k0 k1 k2 k3 k4 k5 k6 k7 k8 k9 k10 k11, c.key = [k0, k1, k2, k3, k4, k5, k6, k7, k8, k9, k10, k11] := by
+    match hc : c.key, hk with
+    | [k0, k1, k2, k3, k4, k5, k6, k7, k8, k9, k10, k11], _ =>
+      exact ⟨k0, k1, k2, k3, k4, k5, k6, k7, k8, k9, k10, k11, rfl⟩
+  have hin : (inputWords c.key c.n0 c.n1 c.s.lo c.s.hi).size = 16 := by simp [inputWords, hk]
+  obtain ⟨r, h1, h2, h3, h4⟩ := bridge_chacha_mix g _ hin hst hout fuel hf
+  refine ⟨r, h1, h2, ?_, ?_⟩
+  · rw [h3]; rfl
+  · rw [h4]
+    simp only [mix, inputWords, hkey]
+    by_cases hc : c.s.lo + 1 = 0 <;> simp [hc]
+
 end UsualProofs.Bridge.C05T
